@@ -37,11 +37,12 @@ RULE = ("a case is one generated edit history (15-80 calls; C01 alphabet with ho
         "re-entered Journal objects, exits: normal / harness exception / re-thrown IR exception, crossing up to 3 journals), "
         "executed on a fresh world outside and on another inside journals; non-trivial = the journaled run left >= 1 journal "
         "in which >= 5 instrumented calls completed and compared >= 10 steps; distinct = hash of the marker structure and the "
-        "multiset of call kinds. 12% of the cases keep Node(..., graph=g) inside journals (a known interference defect that "
-        "ends the comparison of a history at that step); the others build the same states through Node(...) + g.append(node)")
+        "multiset of call kinds. half of the cases construct nodes with Node(..., graph=g) (a constructor that hands the "
+        "half-built node to the journal's Graph.append wrapper; fixed in the repository by c9364db), the others build the same "
+        "states through Node(...) + g.append(node)")
 ASSUMPTIONS = [
     "the instrumented set is what a probe journal replaces on the classes (census diff); the expected operation name per "
-    "replaced attribute is a table in vfpy/c20_mon.py; a replaced attribute without a table row makes the check inconclusive",
+    "replaced attribute is a table in vfpy/c20_mon.py; a replaced attribute without a table row is only excluded from entry matching (report_only_unmapped_instrumented:<attr>)",
     "sys.monitoring PY_START/PY_RETURN/PY_UNWIND on the original code objects sees every call of them (pure-Python functions)",
     "entry clause as read in DESIGN.md: every completed call has exactly one entry of its kind on its object; entries of calls "
     "that raised are tolerated; order only between non-overlapping completed calls",
@@ -67,8 +68,9 @@ class Shard:
         if extra:
             raise RuntimeError(f"snapshot does not account for public attributes {extra}; extend vfpy/snapshot.py")
         d = mon.discover_instrumented()
-        if d["unknown"]:
-            raise RuntimeError(f"the journal replaces class attributes the monitor has no entry mapping for: {d['unknown']}")
+        # An instrumented attribute without a table row only switches off the per-entry matching of
+        # *its* entries; census, differential and liveness do not need the mapping and keep running.
+        self.unmapped = list(d["unknown"])
         self.probe_leftover = d["probe_leftover"]
         self.code_to_key = d["code_to_key"]
         self.baseline = d["baseline"]
@@ -241,7 +243,8 @@ def judge(S, items, gc_check=True, confirm=True):
         S.volatile.add((cname, attr))
     w2 = World20()
     S.log.reset()
-    runner = mon.Runner(w2, items, True, S.log, snap, volatile=S.volatile, checkpoint_at=cps)
+    runner = mon.Runner(w2, items, True, S.log, snap, volatile=S.volatile, checkpoint_at=cps,
+                        unmapped=bool(S.unmapped))
     jobs = runner.run()
     runner = None
     info = dict(jobs.stats)
@@ -349,7 +352,7 @@ def run_case(ctx, S, case):
     hostile = rng.choice([0.1, 0.25, 0.45])
     length = rng.choice([15, 30, 50, 80])
     p_ext = rng.choice([0.15, 0.3, 0.45])
-    node_in_graph = rng.random() < 0.12
+    node_in_graph = rng.random() < 0.5
     scratch = World20()
     gen = Gen20(rng, scratch, hostile, p_ext, node_in_graph)
     ops = []
@@ -394,6 +397,8 @@ def plan(tier: str) -> dict:
         "calls_matched": 30000,
         "calls_raised": 2000,
         "gc_objects_checked": 10000,
+        "del_io_inside_a_journal": 150,
+        "del_io_outside_after_a_journal": 150,
     }
     for key in mon.TABLE:
         floors["calls:" + key] = 15
@@ -415,6 +420,10 @@ def run(ctx) -> None:
             ctx.violation(f"class-not-restored|{cname}.{attr}:{facet}",
                           f"an empty `with Journal(): pass` left {cname}.{attr} different from before: {facet}",
                           {"items": [["J_enter", 0], ["J_exit", "normal", 1]]})
+    for key in S.unmapped:
+        ctx.count("report_only_unmapped_instrumented:" + key)
+        ctx.note(f"the journal replaces {key}, for which the monitor has no operation name: its entries are not matched "
+                 "against calls (census, differential and liveness monitors are unaffected)")
     # warm-up (lazy class attributes, import-time caches), then keep the start-up heap out of gc
     judge(S, [["val", "a", None, 0], ["J_enter", 0], ["val", "b", None, 1], ["J_exit", "normal", 1]])
     gc.collect()
